@@ -263,3 +263,50 @@ func HarnessC01TruthinessAndLogic() {
 	verifrt.Assert(NewBool(bv).IsTruthy() == bv, "bool-truthy")
 	verifrt.Reach("done")
 }
+
+// HarnessC01CompareMixedNumericFP: comparisons between an int (or byte) and a
+// float compare the numeric values: the int is widened, the float is never
+// truncated; both operand orders.
+func HarnessC01CompareMixedNumericFP() {
+	f := verifrt.Float64()
+	verifrt.Assume(f == f)
+	var io Object
+	var iv float64
+	if verifrt.Bool() {
+		a := verifrt.Int64()
+		verifrt.Assume(a >= -(1<<53) && a <= 1<<53) // exact in float64
+		io, iv = &Int{value: a}, float64(a)
+	} else {
+		b := verifrt.Uint8()
+		io, iv = &Byte{value: b}, float64(b)
+	}
+	fo := NewFloat(f)
+	cops := []op.CompareOpType{op.LessThan, op.LessThanOrEqual, op.GreaterThan, op.GreaterThanOrEqual, op.Equal, op.NotEqual}
+	o := cops[verifrt.Choose(len(cops))]
+	ref := func(x, y float64) bool {
+		switch o {
+		case op.LessThan:
+			return x < y
+		case op.LessThanOrEqual:
+			return x <= y
+		case op.GreaterThan:
+			return x > y
+		case op.GreaterThanOrEqual:
+			return x >= y
+		case op.Equal:
+			return x == y
+		}
+		return x != y
+	}
+	r1, err1 := Compare(o, io, fo)
+	verifrt.Assert(err1 == nil, "int-float-compare-succeeds")
+	if err1 == nil {
+		verifrt.Assert(r1.(*Bool).value == ref(iv, f), "int-op-float-compares-numeric-values")
+	}
+	r2, err2 := Compare(o, fo, io)
+	verifrt.Assert(err2 == nil, "float-int-compare-succeeds")
+	if err2 == nil {
+		verifrt.Assert(r2.(*Bool).value == ref(f, iv), "float-op-int-compares-numeric-values")
+	}
+	verifrt.Reach("done")
+}
